@@ -99,6 +99,7 @@ Inductive exc :=
 
 Inductive stmt :=
 | SSelectOne (sd : side) (id : Z)
+| SSelectCol (sd : side) (id : Z) (c : nat)           (* one column of one row (_SO_getValue, cacheValues = False) *)
 | SSelect (sd : side)
 | SCount (sd : side)
 | SInsert (sd : side)
@@ -131,7 +132,8 @@ Definition empty_conn : conn := {| heap := []; cache := empty_cache |}.
 (* wrapOk: ConnWrapper can wrap class methods (inspect.getargspec exists in the running Python) *)
 Record config := { doCache : bool; cullFreq : Z; cullFrac : Z; wrapOk : bool;
                    lazy : bool;       (* sqlmeta.lazyUpdate of the class *)
-                   uniq : bool }.     (* column b carries a UNIQUE constraint *)
+                   uniq : bool;       (* column b carries a UNIQUE constraint *)
+                   cacheVals : bool }.  (* sqlmeta.cacheValues of the class: false = every attribute read queries the database *)
 
 Record st := {
   par : conn;                        (* parent connection *)
@@ -441,9 +443,20 @@ Definition set_val (c : nat) (v : val) (i : inst) : inst := i_with_vals i (set_n
 (* the row as an instance shows it after a reload: the queued assignments of a lazyUpdate instance stay on top *)
 Definition reloaded (i : inst) (r : row) : row := if lazy cfg && dirty i then overlay (i_pending i) r else r.
 
-(* attribute read (_SO_loadValue; the class caches values) *)
+(* attribute read.  cacheValues = False (_SO_getValue): the column is fetched every time -- AssertionError when the
+   instance was destroyed (before anything is sent) or the row is not there; the instance is not touched (it still carries
+   the attributes its last load left, nothing reads them).  Else _SO_loadValue: *)
 Definition so_read (sd : side) (o : nat) (c : nat) : M val :=
   i <- gets (fun s => get_inst s sd o) ;;
+  if negb (cacheVals cfg) then
+    if i_obsolete i then raise EAssertion
+    else
+      t <- stmt_read sd (SSelectCol sd (i_id i) c) ;;
+      match tbl_lookup t (i_id i) with
+      | None => raise EAssertion
+      | Some r => ret (nth c r None)
+      end
+  else
   match nth c (i_vals i) None with
   | Some v => ret v
   | None =>
@@ -459,14 +472,14 @@ Definition so_read (sd : side) (o : nat) (c : nat) : M val :=
   end.
 
 (* attribute assignment (_SO_setValue).  Eager: UPDATE, then cache the value -- unless the instance is
-   flagged expired (it reloads the whole row on the next read).  lazyUpdate: nothing is sent; the value is
+   flagged expired (it reloads the whole row on the next read) or the class does not cache values.  lazyUpdate: nothing is sent; the value is
    queued and cached (also on an expired instance) *)
 Definition so_set (sd : side) (o : nat) (c : nat) (v : val) : M unit :=
   i <- gets (fun s => get_inst s sd o) ;;
   if lazy cfg then upd_inst sd o (fun i => i_with_pending (set_val c v i) (set_nth c (Some v) (i_pending i)))
   else
     db_update sd (i_id i) c v ;;;
-    if i_expired i then ret tt else upd_inst sd o (set_val c v).
+    if i_expired i || negb (cacheVals cfg) then ret tt else upd_inst sd o (set_val c v).
 
 (* syncUpdate: nothing queued, nothing done (no statement, not even the check that the transaction is active);
    else the one UPDATE, then the queue is emptied (it stays when the statement raised) *)
@@ -781,7 +794,9 @@ Definition step_ok (s : st) (o : op) : bool :=
           else
             match pending s with
             | None =>
-                others_blankb s x &&
+                (* (a class with cacheValues = False leaves the attributes of its last load behind: nothing reads them -- C07_read --
+                   and par_fresh does not speak about such classes) *)
+                cacheVals cfg && others_blankb s x &&
                 match tbl_lookup (committed s) (i_id (get_inst s Par x)) with Some r => Nat.ltb c (length r) | None => false end
             | Some _ => true
             end
@@ -819,7 +834,8 @@ Definition needs_db (s : st) (o : op) : bool :=
   | OCreate _ _ _ _ | OSelect _ _ _ | OCount _ => true
   | OGet sd via id => via          (* without the wrapper a cache hit needs no statement *)
   | ORead h c => match nth h (slots s) None with
-                 | Some (sd, x) => match nth c (i_vals (get_inst s sd x)) None with Some _ => false | None => true end
+                 | Some (sd, x) => negb (cacheVals cfg) ||
+                                   match nth c (i_vals (get_inst s sd x)) None with Some _ => false | None => true end
                  | None => false
                  end
   | OSet h _ _ => if lazy cfg then false else match nth h (slots s) None with Some _ => true | None => false end
